@@ -177,7 +177,7 @@ func runC10(r *core.Run) {
 	}
 	for i, rv := range reviewed {
 		if !used[i] {
-			r.Note("reviewed-invariant entry not matched on this tree: %s %s %s", rv.fn, rv.kind, rv.base)
+			r.Note("reviewed-invariant entry not matched on this tree: %s %s (%s)", rv.fn, rv.kind, rv.reason)
 		}
 	}
 	c10Alloc(r, le, scope)
@@ -188,7 +188,7 @@ func runC10(r *core.Run) {
 	c10FormatPointers(r)
 }
 
-func c10Reviewed(p *core.Prog) []reviewedSite {
+func c10Reviewed(p *core.Prog) []reviewedSiteM {
 	fIdxPacket := p.Field("tds", "PacketQueue", "indexPacket")
 	fQueue := p.Field("tds", "PacketQueue", "queue")
 	notConsumed := func(r *core.Run, s lenSite) (bool, string) {
@@ -261,14 +261,47 @@ func c10Reviewed(p *core.Prog) []reviewedSite {
 		}
 		return false
 	}
-	return []reviewedSite{
-		{"(*tds.PacketQueue).Bytes", "index", "queue.queue", "AllPacketsConsumed() == false implies indexPacket < len(queue) (its `indexPacket >= len(queue)` arm answers true); indexPacket >= 0 by its stores", func(r *core.Run, s lenSite) (bool, string) {
+	fData := p.Field("tds", "Packet", "Data")
+	fCaps := p.Field("tds", "valueMask", "capabilities")
+	cont := func(s lenSite) ssa.Value {
+		switch x := s.Instr.(type) {
+		case *ssa.IndexAddr:
+			return x.X
+		case *ssa.Index:
+			return x.X
+		case *ssa.Lookup:
+			return x.X
+		case *ssa.Slice:
+			return x.X
+		}
+		return nil
+	}
+	loadOf := func(f *types.Var) func(lenSite) bool {
+		return func(s lenSite) bool { g, _ := core.FieldLoad(cont(s)); return g == f }
+	}
+	isMake := func(s lenSite) bool { _, ok := cont(s).(*ssa.MakeSlice); return ok }
+	isParam := func(s lenSite) bool { _, ok := cont(s).(*ssa.Parameter); return ok }
+	callTo := func(pkg, name string) func(lenSite) bool {
+		return func(s lenSite) bool {
+			c, ok := cont(s).(*ssa.Call)
+			if !ok {
+				return false
+			}
+			if core.IsPkgFunc(c, pkg, name) {
+				return true
+			}
+			f := c.Call.StaticCallee()
+			return f != nil && f.Pkg != nil && f.Pkg.Pkg.Path() == pkg && f.Name() == name
+		}
+	}
+	return []reviewedSiteM{
+		{fn: "(*tds.PacketQueue).Bytes", kind: "index", reason: "AllPacketsConsumed() == false implies indexPacket < len(queue) (its `indexPacket >= len(queue)` arm answers true); indexPacket >= 0 by its stores", match: loadOf(fQueue), check: func(r *core.Run, s lenSite) (bool, string) {
 			if ok, why := notConsumed(r, s); !ok {
 				return false, why
 			}
 			return idxPacketInvariant()
 		}},
-		{"(*tds.PacketQueue).AllPacketsConsumed", "index", "queue.queue", "evaluated only under indexPacket == len(queue)-1, after the `indexPacket >= len(queue)` and empty-queue arms returned", func(r *core.Run, s lenSite) (bool, string) {
+		{fn: "(*tds.PacketQueue).AllPacketsConsumed", kind: "index", reason: "evaluated only under indexPacket == len(queue)-1, after the `indexPacket >= len(queue)` and empty-queue arms returned", match: loadOf(fQueue), check: func(r *core.Run, s lenSite) (bool, string) {
 			if !guardIdxVsLen(s, func(op token.Token, pol, m1 bool) bool { return op == token.EQL && pol && m1 }) {
 				return false, "not dominated by indexPacket == len(queue)-1"
 			}
@@ -277,10 +310,10 @@ func c10Reviewed(p *core.Prog) []reviewedSite {
 			}
 			return idxPacketInvariant()
 		}},
-		{"(*tds.PacketQueue).Bytes", "slice", "make([]byte, n)", "bsOffset grows by endIndex-startIndex, which the clamp keeps <= n-bsOffset; the loop ends at bsOffset == n", func(r *core.Run, s lenSite) (bool, string) {
+		{fn: "(*tds.PacketQueue).Bytes", kind: "slice", reason: "bsOffset grows by endIndex-startIndex, which the clamp keeps <= n-bsOffset; the loop ends at bsOffset == n", match: isMake, check: func(r *core.Run, s lenSite) (bool, string) {
 			return notConsumed(r, s)
 		}},
-		{"(*tds.PacketQueue).Bytes", "slice", "queue.queue[queue.indexPacket].Data", "endIndex is clamped to len(data); indexData < len(data) whenever the packet is not consumed", func(r *core.Run, s lenSite) (bool, string) {
+		{fn: "(*tds.PacketQueue).Bytes", kind: "slice", reason: "endIndex is clamped to len(data); indexData < len(data) whenever the packet is not consumed", match: loadOf(fData), check: func(r *core.Run, s lenSite) (bool, string) {
 			if ok, why := notConsumed(r, s); !ok {
 				return false, why
 			}
@@ -300,7 +333,7 @@ func c10Reviewed(p *core.Prog) []reviewedSite {
 			}
 			return true, ""
 		}},
-		{"(*tds.PacketQueue).DiscardUntilCurrentPosition", "slice", "queue.queue", "indexPacket <= len(queue) (it is advanced only while a packet is being read); the second slice follows a successful index 0", func(r *core.Run, s lenSite) (bool, string) {
+		{fn: "(*tds.PacketQueue).DiscardUntilCurrentPosition", kind: "slice", reason: "indexPacket <= len(queue) (it is advanced only while a packet is being read); the second slice follows a successful index 0", match: loadOf(fQueue), check: func(r *core.Run, s lenSite) (bool, string) {
 			sl := s.Instr.(*ssa.Slice)
 			if c, isC := core.ConstInt64(sl.Low); isC && c == 1 {
 				// queue.queue[1:] — dominated by the false edge of indexPacket >= len(queue) with indexPacket == 0
@@ -314,13 +347,13 @@ func c10Reviewed(p *core.Prog) []reviewedSite {
 			}
 			return idxPacketInvariant()
 		}},
-		{"(*tds.PacketQueue).DiscardUntilCurrentPosition", "index", "queue.queue", "dominated by the false edge of indexPacket >= len(queue)", func(r *core.Run, s lenSite) (bool, string) {
+		{fn: "(*tds.PacketQueue).DiscardUntilCurrentPosition", kind: "index", reason: "dominated by the false edge of indexPacket >= len(queue)", match: loadOf(fQueue), check: func(r *core.Run, s lenSite) (bool, string) {
 			if !guardIdxVsLen(s, func(op token.Token, pol, m1 bool) bool { return op == token.GEQ && !pol && !m1 }) {
 				return false, "not dominated by the false edge of indexPacket >= len(queue)"
 			}
 			return idxPacketInvariant()
 		}},
-		{"(*tds.Packet).ReadFrom", "slice", "packet.Data", "totalBytes-n counts the body bytes read so far; io.Reader returns m <= len(p) and the loop ends at totalBytes == Header.Length", func(r *core.Run, s lenSite) (bool, string) {
+		{fn: "(*tds.Packet).ReadFrom", kind: "slice", reason: "totalBytes-n counts the body bytes read so far; io.Reader returns m <= len(p) and the loop ends at totalBytes == Header.Length", match: loadOf(fData), check: func(r *core.Run, s lenSite) (bool, string) {
 			sl := s.Instr.(*ssa.Slice)
 			sub, ok := sl.Low.(*ssa.BinOp)
 			if !ok || sub.Op != token.SUB || sl.High != nil {
@@ -338,7 +371,7 @@ func c10Reviewed(p *core.Prog) []reviewedSite {
 			}
 			return true, ""
 		}},
-		{"(*tds.valueMask).setCapability", "index", "vm.capabilities", "the index is a client-side capability constant, never wire data: the parser constructs capability packages with nil lists", func(r *core.Run, s lenSite) (bool, string) {
+		{fn: "(*tds.valueMask).setCapability", kind: "index", reason: "the index is a client-side capability constant, never wire data: the parser constructs capability packages with nil lists", match: loadOf(fCaps), check: func(r *core.Run, s lenSite) (bool, string) {
 			lp := p.Func("tds", "", "LookupPackage")
 			ncp := p.Func("tds", "", "NewCapabilityPackage")
 			for _, c := range callsTo(lp, ncp) {
@@ -359,7 +392,7 @@ func c10Reviewed(p *core.Prog) []reviewedSite {
 			}
 			return true, ""
 		}},
-		{"(asetypes.DataType).goValue", "index", "bs", "BIT has the fixed size 1 (ByteSizes) and GoValue checks the length of fixed-size types before calling goValue; the bs[i+1] in the UNITEXT arm is behind utf16.IsSurrogate(rune(byte)), which is false for every byte value", func(r *core.Run, s lenSite) (bool, string) {
+		{fn: "(asetypes.DataType).goValue", kind: "index", reason: "BIT has the fixed size 1 (ByteSizes) and GoValue checks the length of fixed-size types before calling goValue; the bs[i+1] in the UNITEXT arm is behind utf16.IsSurrogate(rune(byte)), which is false for every byte value", match: isParam, check: func(r *core.Run, s lenSite) (bool, string) {
 			if c, isC := core.ConstInt64(s.Idx); isC && c == 0 {
 				return c10BitOracle(p, s)
 			}
@@ -376,7 +409,7 @@ func c10Reviewed(p *core.Prog) []reviewedSite {
 			}
 			return false, "the index is neither the BIT arm's bs[0] nor behind utf16.IsSurrogate(rune(byte))"
 		}},
-		{"(tds.TokenlessPackage).String", "index", "pkg.Data.Bytes()", "tryParsePackage writes the token byte into Data before the package is read or formatted, so Data is never empty for a package built from wire data", func(r *core.Run, s lenSite) (bool, string) {
+		{fn: "(tds.TokenlessPackage).String", kind: "index", reason: "tryParsePackage writes the token byte into Data before the package is read or formatted, so Data is never empty for a package built from wire data", match: callTo("bytes", "Bytes"), check: func(r *core.Run, s lenSite) (bool, string) {
 			tpp := p.Func("tds", "Channel", "tryParsePackage")
 			for _, c := range core.Calls(tpp) {
 				if core.IsMethod(c, "bytes", "Buffer", "WriteByte") {
@@ -387,7 +420,7 @@ func c10Reviewed(p *core.Prog) []reviewedSite {
 			}
 			return false, "tryParsePackage no longer writes the token byte into a TokenlessPackage's Data"
 		}},
-		{"tds.parseValueMask", "index", "tds.newValueMask((len(bs) * 8)).capabilities", "newValueMask(len(bs)*8) allocates len(bs)*8+1 entries; the nested loops (len(bs) x 8) advance cur once per inner iteration", func(r *core.Run, s lenSite) (bool, string) {
+		{fn: "tds.parseValueMask", kind: "index", reason: "newValueMask(len(bs)*8) allocates len(bs)*8+1 entries; the nested loops (len(bs) x 8) advance cur once per inner iteration", match: loadOf(fCaps), check: func(r *core.Run, s lenSite) (bool, string) {
 			nvm := p.Func("tds", "", "newValueMask")
 			okMake := false
 			for _, b := range nvm.Blocks {
@@ -454,7 +487,7 @@ func c10Reviewed(p *core.Prog) []reviewedSite {
 			}
 			return true, ""
 		}},
-		{"(*asetypes.Decimal).String", "slice", "fmt.Sprintf(((\"%0\" + strconv.Itoa(dec.Precision)) + \"s\"), varargs[:])", "0 <= Scale <= Precision holds for every Decimal: the constructors call sanity(), goValue assigns constant pairs, and values copied from the wire are validated (R10.6); the digit string is padded to at least Precision characters", func(r *core.Run, s lenSite) (bool, string) {
+		{fn: "(*asetypes.Decimal).String", kind: "slice", reason: "0 <= Scale <= Precision holds for every Decimal: the constructors call sanity(), goValue assigns constant pairs, and values copied from the wire are validated (R10.6); the digit string is padded to at least Precision characters", match: callTo("fmt", "Sprintf"), check: func(r *core.Run, s lenSite) (bool, string) {
 			return c10DecimalStores(p)
 		}},
 	}
@@ -793,7 +826,7 @@ func c10Alloc(r *core.Run, le *lenEngine, scope []*ssa.Function) {
 				if ai < 0 || ai >= len(args) {
 					continue
 				}
-				k := core.FuncName(c.Parent()) + " -> " + fn.Name() + "(" + core.Expr(args[ai]) + ")"
+				k := core.FuncName(c.Parent()) + " -> " + fn.Name() + "(" + core.KExpr(args[ai]) + ")"
 				out = append(out, visit(args[ai], c.(ssa.Instruction), k, depth+1, seen)...)
 			}
 			if len(cs) == 0 {
@@ -873,7 +906,7 @@ func c10Alloc(r *core.Run, le *lenEngine, scope []*ssa.Function) {
 				if _, isC := core.ConstInt64(ms.Len); isC {
 					continue
 				}
-				ctx := core.FuncName(fn) + ": make(" + core.Expr(ms.Len) + ")"
+				ctx := core.FuncName(fn) + ": make(" + core.KExpr(ms.Len) + ")"
 				for _, is := range visit(ms.Len, ms, ctx, 0, map[*ssa.Parameter]bool{}) {
 					if is.ok {
 						r.OK("R10.4", is.key, is.pos, is.what)
@@ -954,7 +987,7 @@ func c10Loops(r *core.Run) {
 					}
 				}
 			}
-			key := core.FuncName(fn) + ": loop at " + core.Expr(loopCond(b))
+			key := core.FuncName(fn) + ": loop at " + core.KExpr(loopCond(b))
 			pos := b.Instrs[0].Pos()
 			if pos == token.NoPos && len(b.Instrs) > 1 {
 				pos = b.Instrs[len(b.Instrs)-1].Pos()
